@@ -276,7 +276,7 @@ LOOP_BOUNDS = ("induction over loop iterations (histories of ANY length): base =
                "the epilogue returns the loop's tree. Symbolic: ANY directed graph with NV vertices and NE edges (end points symbolic: self loops, parallel and "
                "anti-parallel edges), any edge permission mask, edge costs any f64 in [2^-10, 2^10], estimates in [0, 2^10], both directions, any origin, any / no "
                "destination, iteration limit any u64 <= 2^20, queue priorities any non-NaN f64, tie-breaking of the queue nondeterministic. Instances (NV, NE): "
-               "quick (2,1) [+ (2,2) for C05]; thorough adds the step at (3,3) and base / exit at (3,4) / (4,4) (the steps at (3,4) and (4,4) are documented attempts: spurious counterexample that does not reproduce natively, resp. no verdict). Stated domain bound: every cost-so-far < 2^40 (assumed of the pre-state; under it "
+               "quick (2,1) for C01 / C04 / C10 and (2,2) for C05; thorough adds the step at (3,3) and base / exit at (3,4) / (4,4) (the steps at (3,4) and (4,4) are documented attempts: spurious counterexample that does not reproduce natively, resp. no verdict). Stated domain bound: every cost-so-far < 2^40 (assumed of the pre-state; under it "
                "cost + edge cost > cost, no floating-point absorption). Table models have capacity 4 in this crate (NV <= 4). unwind = NE + 2")
 LOOP_ASSUMPTIONS = [
     "source slicer (lib/slice_loop.py): the three functions are the text of run_a_star's prologue / loop body / epilogue, regenerated from /repo's current source on every run and compiled inside the same module (hook H4, feature verif-step); that run_a_star equals 'prologue; loop { body }; epilogue' is syntactic (exactly one top-level loop, checked by the slicer; any other shape -> inconclusive, never pass)",
@@ -291,7 +291,7 @@ INV_TEXT = ("INV: (I1) origin has cost 0 and no entry, every other vertex has a 
             "search direction, p has a cost and cost(p) < cost(v); (I3) costs finite and >= 0, iterations <= limit; (I4) for every permitted edge p -> v: p has a cost => v has a "
             "cost or p is queued; (I5) queued vertices have a cost; (I7) a destination with a cost is still queued")
 LOOP_RUN_Q1 = dict(crate="loop", quick=["astar::q1::", "astar::q::base_v2_e2", "astar::q::exit_v2_e2"], thorough=["astar::q1::", "astar::q::", "astar::t::"], jobs=6)
-LOOP_RUN_Q = dict(crate="loop", quick=["astar::q1::", "astar::q::base_v2_e2", "astar::q::step_v2_e2", "astar::q::exit_v2_e2"], thorough=["astar::q1::", "astar::q::", "astar::t::", "astar::dj::step_dijkstra_v2_e2", "astar::dj::base_dijkstra_v2_e2"], jobs=6)
+LOOP_RUN_Q = dict(crate="loop", quick=["astar::q::base_v2_e2", "astar::q::step_v2_e2", "astar::q::exit_v2_e2"], thorough=["astar::q1::", "astar::q::", "astar::t::", "astar::dj::step_dijkstra_v2_e2", "astar::dj::base_dijkstra_v2_e2"], jobs=6)
 
 prop(
     "C05",
@@ -315,12 +315,12 @@ INV_D_TEXT = ("INV_D (Dijkstra, weight factor 0; 'closed' = has a cost and is no
               "cost(v) == cost(parent) + c(edge) exactly")
 prop(
     "C02",
-    runs=[dict(crate="loop", quick=["astar::dj::bf_fixpoint_v2_e2", "astar::dj::base_dijkstra_v2_e2", "astar::dj::step_dijkstra_v2_e1", "astar::dj::step_dijkstra_v2_e2"],
+    runs=[dict(crate="loop", quick=["astar::dj::bf_fixpoint_v2_e2", "astar::dj::base_dijkstra_v2_e2", "astar::dj::step_dijkstra_v2_e1"],
                thorough=["astar::dj::", "astar::djt::"], jobs=4)],
     ht_quick=1800, ht_thorough=6000,
     functions=LOOP_FUNCTIONS + ["InternalPriorityQueue::{push, push_increase, pop} (table model of the queue: pop returns AN entry of maximal priority)"],
     bounds=("DIJKSTRA ONLY (weight factor Some(0)), vertex-oriented, edge costs that do not depend on how the edge was reached. " + LOOP_BOUNDS +
-            " Instances (NV, NE) for this property: (2,1) and (2,2) [two vertices: parallel / anti-parallel edges and self loops compete for the least cost]; the step at (3,3) [direct edge against a two-edge detour] did not return in 5000 s and is NOT part of the claim (thorough adds only the base case at (3,3))."),
+            " Instances (NV, NE) for this property: quick (2,1), thorough adds (2,2) [two vertices: parallel / anti-parallel edges and self loops compete for the least cost]; the step at (3,3) [direct edge against a two-edge detour] did not return in 5000 s and is NOT part of the claim (thorough adds only the base case at (3,3))."),
     assumptions=[INV_TEXT, INV_D_TEXT,
         "decided: base (the prologue establishes INV_D), step (from EVERY state satisfying INV and INV_D one iteration of the real loop body re-establishes INV and INV_D), and at the exits: a destination that is popped carries cost == least(destination); a search without destination ends with every tree vertex labelled with its least cost. By D7 the cost accumulated along the tree path of a vertex equals its label, so the route that backtracking reads off the tree (C01) has least total cost",
         "lemma used as an assumption of the step harness: the Bellman-Ford table is a fixpoint of relaxation after NV-1 rounds (decided by astar::dj::bf_fixpoint_v2_e2; for (3,3) the lemma harness is in the thorough tier and may not return - then it stays a mathematical fact about NV-1 rounds with monotone floating-point addition, stated, not decided)",
